@@ -4,6 +4,7 @@ import Proofs.GrepSections
 import Proofs.GrepPlainA
 import Proofs.GrepPlainB
 import Proofs.GrepPlainC
+import Proofs.GrepPlainD
 import Proofs.GrepEmit
 /-!
 C16 — grep output keeps every hit's path, line number and code.
@@ -42,6 +43,30 @@ theorem noext_last_class :
 
 /-- `parse_grep_line` tries the plain-text regexes in this order (regenerated). -/
 theorem plain_order : plainVariants = [.extNum, .extNoSpaces, .ext, .noSep] := by decide
+
+/-- The file-path pattern and the separator part of every plain-text regex variant, in `(?x)`
+normal form and **per variant** (each read from the match arm of `make_grep_line_regex` that
+serves the variant), are the shapes the hand-written predicates implement; only the extension
+length bounds `{lo,hi}` and the last class of the separator-free path are left open here —
+these the model reads from the source. -/
+theorem path_shapes_pinned :
+    Generated.Grep.pathShapes = pinnedPathShapes ∧ Generated.Grep.sepShapes = pinnedSepShapes := by
+  decide
+
+/-- The extension length bounds of the three extension-based variants, regenerated from the
+source per variant, are the lengths the round-trip theorems below promise: 1–10 on a line with
+a line number (first regex), 1–6 for the blank-free second regex, 1–10 for the third regex (the
+one that reads unnumbered lines whose path has blanks or a long extension). The fragments
+`fragNumbered`, `fragUnnumbered`, `fragUnnumberedExt` are stated with the fixed numbers
+`docExtMin = 1`, `docExtMax = 10`, `docExtMaxNoSpaces = 6`, and their proofs go through these
+equations — narrowing one variant's `{lo,hi}` in the source does not narrow a theorem, it
+breaks it. -/
+theorem ext_bounds_documented :
+    (Generated.Grep.extMinNum = docExtMin ∧ Generated.Grep.extMaxNum = docExtMax) ∧
+    (Generated.Grep.extMinNoSpaces = docExtMin ∧ Generated.Grep.extMaxNoSpaces = docExtMaxNoSpaces) ∧
+    (Generated.Grep.extMin = docExtMin ∧ Generated.Grep.extMax = docExtMax) ∧
+    docExtMin = 1 ∧ docExtMax = 10 ∧ docExtMaxNoSpaces = 6 := by
+  decide
 
 /-! ## Coloured format -/
 
@@ -104,11 +129,13 @@ of `:`, `-`, `=` — and code free of a `name.ext` + sep-number-sep look-alike, 
 matching parser returns (path, kind, number, code).*  As literally worded this is false of
 the unchanged code (see `plain_extensionless_witness`, `plain_unnumbered_witness` below: an
 unnumbered line is also ambiguous when a `.ext` + separator — without a number — occurs in
-the code or a number look-alike inside the path).  What is proved is the statement on three
-fragments, named precisely by `fragNumbered`, `fragUnnumbered`, `fragNoExt`
-(DeltaModel/Grep.lean); lines outside them (e.g. unnumbered lines whose path contains
-blanks, extensions of 7–10 characters on unnumbered lines) are covered by the differential
-test only. -/
+the code or a number look-alike inside the path).  What is proved is the statement on four
+fragments, named precisely by `fragNumbered`, `fragUnnumbered`, `fragUnnumberedExt`,
+`fragNoExt` (DeltaModel/Grep.lean) and stated with the fixed extension lengths
+`docExtMin`/`docExtMax`/`docExtMaxNoSpaces` (tied to the source by `ext_bounds_documented`);
+lines outside them (e.g. unnumbered lines whose path contains
+blanks or whose extension has 7–10 characters and whose blank-free head contains a short
+`.ext`-sep look-alike; paths containing `:`) are covered by the differential test only. -/
 
 /-- Fragment A — numbered line; path of the shape `[^:| ][^:]*[^ ].ext` (ext 1–10 chars of
 `[^. :=-]`) without `:`; on `-`/`=` lines the code has no `.ext`-sep-number-sep look-alike.
@@ -134,6 +161,38 @@ theorem plain_round_trip_partial_unnumbered (p : Parsed) (h : fragUnnumbered p =
 example : fragUnnumbered
     { path := "src/co-7-fig.rs".toList, kind := .context, digits := none,
       code := "    if self.source == Source::Unknown { x.y(); }".toList } = true := by decide
+
+/-- Fragment B2 — unnumbered line; path `[^:| ][^:]*[^ ].ext` with an extension of **1–10**
+characters (`docExtMax`), blanks allowed, no `:` — in particular what fragment B leaves out:
+`.markdown`, `.properties`, `.template`, and blanks in directory or file names. Side conditions
+of B; in addition the blank-free head of the path (up to its first blank) has no `.ext`-sep
+look-alike with an extension of at most 6 characters (`plain_unnumbered_blank_witness` shows
+what happens otherwise). Such a line is rejected by the first regex (no number) and by the second
+(blank / long extension) and read by the third, `WithFileExtension`, whose bounds
+`ext_bounds_documented` ties to 1–10. -/
+theorem plain_round_trip_partial_unnumbered_ext (p : Parsed) (h : fragUnnumberedExt p = true) :
+    parsePlain (fmtPlain p) = some p :=
+  parsePlain_unnumbered_ext p h
+
+example : fragUnnumberedExt
+    { path := "config/app-dev.properties".toList, kind := .match_, digits := none,
+      code := "port 8080".toList } = true := by decide
+example : fragUnnumberedExt
+    { path := "deploy/k8s-v2/web service.template".toList, kind := .context, digits := none,
+      code := "  containerPort: 8080 # a.b c-d".toList } = true := by decide
+example : fragUnnumberedExt
+    { path := "my docs/getting-started.markdown".toList, kind := .contextHeader, digits := none,
+      code := "## Ports".toList } = true := by decide
+
+/-- The same on concrete lines, for every extension length 7–10 in a path with a dash (the
+lines only the third regex reads; with a narrower `{lo,hi}` there they fall to the last-resort
+regex, which cuts the path at the first dash). -/
+theorem plain_unnumbered_long_extension_read_back :
+    (["docs/getting-started.graphql", "docs/getting-started.markdown", "a-b/x=y.gitignore",
+      "config/app-dev.properties"].all fun path =>
+      parsePlain (fmtPlain { path := path.toList, kind := .match_, digits := none, code := "port 8080".toList }) ==
+        some { path := path.toList, kind := .match_, digits := none, code := "port 8080".toList }) = true := by
+  decide
 
 /-- Fragment C — extension-less name free of `:`, `-`, `=`, `.`; numbered or not; the code
 has no `.ext`-sep look-alike; an unnumbered line's code starts neither with a number
@@ -251,6 +310,16 @@ theorem plain_extensionless_repaired : Generated.Grep.noSepLastExcluded = ": =-"
 theorem plain_unnumbered_witness :
     parsePlain (fmtPlain { path := "src/a.rs".toList, kind := .context, digits := none, code := "foo.bar-baz".toList }) =
       some { path := "src/a.rs-foo.bar".toList, kind := .context, digits := none, code := "baz".toList } := by
+  decide
+
+/-- Outside fragment B2: an unnumbered line whose path has a blank *and*, before it, a short
+`.ext` followed by a separator character. The blank keeps the line from the second regex as a
+whole, but that regex matches the blank-free head: the path is cut at `v1.2` (inherent in the
+format: `v1.2-rc/my file.rs:x` is also what `grep -C` prints for a context line `rc/my file.rs:x`
+of a file `v1.2`). -/
+theorem plain_unnumbered_blank_witness :
+    parsePlain (fmtPlain { path := "v1.2-rc/my file.rs".toList, kind := .match_, digits := none, code := "x".toList }) =
+      some { path := "v1.2".toList, kind := .context, digits := none, code := "rc/my file.rs:x".toList } := by
   decide
 
 end C16
